@@ -1029,6 +1029,35 @@ pub fn run(o: &Opts) -> i32 {
             }
         }
     }
+    // the encode side of the same rule: a custom proposal built through the public API with every type value 0..10 and two
+    // custom ones — whatever the encoder produces must decode to the same value and re-encode to the same bytes, and a reserved
+    // type (the values of the defined proposal types) must be refused by the encoder, not produce bytes nobody can read
+    {
+        use mls_rs::group::proposal::{CustomProposal, Proposal, ProposalType};
+        use mls_rs::mls_rs_codec::{MlsDecode, MlsEncode};
+        for t in (0u16..=10).chain([0xf000u16, 0xffff]) {
+            let p = Proposal::Custom(CustomProposal::new(ProposalType::from(t), rng.bytes(5)));
+            st.cases += 1;
+            match std::panic::catch_unwind(|| p.mls_encode_to_vec()) {
+                Err(_) => st.fail(format!("encoding a custom proposal of type {t} panics")),
+                Ok(Err(_)) => {
+                    *st.outcomes.entry("custom-encode:refused".into()).or_default() += 1;
+                }
+                Ok(Ok(b)) => {
+                    *st.outcomes.entry("custom-encode:ok".into()).or_default() += 1;
+                    match Proposal::mls_decode(&mut &*b) {
+                        Ok(q) if q == p && q.mls_encode_to_vec().ok().as_deref() == Some(&b[..]) => {}
+                        Ok(_) => st.fail(format!("a custom proposal of type {t} decodes to a different proposal")),
+                        Err(_) => st.fail(format!("the encoder produced a custom proposal of type {t} that the decoder refuses")),
+                    }
+                    let ans = guarded_probe("Proposal", &b, &mut st, "custom-proposal-encode");
+                    if ans != "panic" && codec_names.contains("Proposal") {
+                        put_codec_row(&mut qa, "Proposal", &b, &ans);
+                    }
+                }
+            }
+        }
+    }
     let rows = qa.finish();
     println!("rows {rows}");
     println!("cases {}", st.cases);
